@@ -10,7 +10,10 @@ REL = {"C01": ["C01", "C06"], "C02": ["C02", "C12"], "C03": ["C03", "C04"], "C04
 wd = sys.argv[1]
 ids = sys.argv[2:] or sorted(os.path.basename(p) for p in glob.glob(os.path.join(wd, "C??")))
 for cid in ids:
-    wt = os.path.join(wd, cid)
+    slot = cid
+    if "=" in cid:  # slot directory = property, e.g. S07=C13
+        slot, cid = cid.split("=")
+    wt = os.path.join(wd, slot)
     if not os.path.exists(os.path.join(wt, "seed_demo", "patch.diff")):
         print(f"#### {cid}: not finished"); continue
     demos = glob.glob(os.path.join(wt, "src", "*", "seed_demo"))
@@ -24,7 +27,7 @@ for cid in ids:
     parts = out.split("--- demo WITHOUT the change (must pass):")
     withc = parts[0].split("--- demo WITH the change (must fail):")[-1] if len(parts) == 2 else ""
     confirmed = build and tests and "FAIL" in withc and len(parts) == 2 and re.search(r"^ok\s", parts[1], re.M) and "FAIL" not in parts[1]
-    print(f"#### {cid}: demo={demo} build={build} repo_tests={tests} confirmed={bool(confirmed)}")
+    print(f"#### {slot} {cid}: demo={demo} build={build} repo_tests={tests} confirmed={bool(confirmed)}")
     if not confirmed:
         print(out[-1500:])
     for ck in REL[cid]:
